@@ -172,13 +172,13 @@ def getitem(it, base, idx, line=None):
             it.raise_py('IndexError', 'string index out of range', line)
         return SStr(z3.SubString(base.t, i, 1))
     if isinstance(base, (VList, VSeqIter)):
-        seq = base.to_seq() if isinstance(base, VList) else base.seq
+        seq = base.seq
         n = z3.Length(seq)
         i = norm_index(it, idx, n)
         ok = z3.And(i >= 0, i < n)
         if not it.spec() and not ctx.branch(ok, 'index@%s' % line):
             it.raise_py('IndexError', 'index out of range', line)
-        return lower(seq[i])
+        return pv.elem_value(base, seq[i])
     if isinstance(base, VDict):
         return dict_load(it, base, idx, line)
     if isinstance(base, SAny):
@@ -227,12 +227,14 @@ def getslice(it, base, lo, hi, step, line=None):
         a, ln = clamp_slice(lo, hi, z3.Length(s))
         return SStr(z3.SubString(s, a, ln))
     if isinstance(base, (VList, VSeqIter, tuple)):
-        seq = it.seq_term(base, line)
+        typed = isinstance(base, VSeqIter) or (isinstance(base, VList) and base.symbolic)
+        seq = base.seq if typed else it.seq_term(base, line)
+        el = base.elem if typed else 'any'
         a, ln = clamp_slice(lo, hi, z3.Length(seq))
         sub = z3.SubSeq(seq, a, ln)
         if isinstance(base, VList) or (isinstance(base, VSeqIter) and base.kind == 'list'):
-            return VList(seq=sub)
-        return VSeqIter(sub)
+            return VList(seq=sub, elem=el)
+        return VSeqIter(sub, elem=el)
     if isinstance(base, SAny):
         t = base.t
         if it.spec():
@@ -285,7 +287,10 @@ def dict_load(it, d, k, line=None):
     if not it.spec():
         if not ctx.branch(v != pv.PAbsent, 'haskey@%s' % line):
             it.raise_py('KeyError', 'key', line)
-    return lower(v)
+    r = lower(v)
+    if isinstance(r, SAny) and not it.spec():
+        r.origin = (d, k)
+    return r
 
 
 def dict_store(it, d, k, v):
@@ -419,8 +424,12 @@ def contains(it, container, x, line=None):
             it.raise_py('TypeError', "'in <string>' requires string as left operand", line)
         return mkbool(z3.Contains(as_term_str(container), as_term_str(x)))
     if isinstance(container, (VList, VSeqIter)):
-        seq = container.to_seq() if isinstance(container, VList) else container.seq
-        return mkbool(z3.Contains(seq, z3.Unit(lift(x))))
+        et = pv.elem_term(container, x)
+        if et is None:
+            if isinstance(x, SAny):
+                return mkbool(z3.And(PV.is_PStr(x.t), z3.Contains(container.seq, z3.Unit(PV.s(x.t)))))
+            return False
+        return mkbool(z3.Contains(container.seq, z3.Unit(et)))
     if isinstance(container, VDict):
         return dict_contains(it, container, x)
     if isinstance(container, VKeys):
@@ -550,6 +559,8 @@ def binop(it, op, a, b, line=None):
         if isinstance(a, VList) and isinstance(b, VList):
             if not a.symbolic and not b.symbolic:
                 return newlist(a.items + b.items)
+            if a.symbolic and b.symbolic and a.elem == b.elem:
+                return VList(seq=z3.Concat(a.seq, b.seq), elem=a.elem)
             return VList(seq=z3.Concat(a.to_seq(), b.to_seq()))
         if isinstance(a, (tuple, VSeqIter)) and isinstance(b, (tuple, VSeqIter)):
             return VSeqIter(z3.Concat(it.seq_term(a), it.seq_term(b)))
@@ -760,6 +771,14 @@ def call_method(it, base, name, args, kwargs, line=None):
     ctx = it.ctx
     if isinstance(base, SAny) and not it.spec():
         t = base.t
+        if name in ('append', 'extend') and getattr(base, 'origin', None) is not None:
+            # list stored (by value) in a symbolic dict and mutated through the lookup: write back
+            d, k = base.origin
+            if not ctx.branch(PV.is_PList(t), 'islist@%s' % line):
+                it.raise_py('AttributeError', name, line)
+            add = z3.Unit(lift(args[0])) if name == 'append' else it.seq_term(args[0], line)
+            dict_store(it, d, k, SAny(PV.PList(z3.Concat(PV.litems(t), add))))
+            return None
         if name in STR_METHODS and name not in LIST_METHODS and name not in DICT_METHODS:
             if ctx.branch(PV.is_PStr(t), 'isstr@%s' % line):
                 return call_method(it, SStr(PV.s(t)), name, args, kwargs, line)
@@ -850,7 +869,9 @@ def str_method(it, s, name, args, kwargs, line=None):
         if not args:
             raise Unsupported('str.split() on a symbolic string')
         it.ctx.note('str.split / str.join: trusted as uninterpreted py_split / py_join')
-        return VList(seq=py_split(st, as_term_str(args[0])))
+        r = py_split(st, as_term_str(args[0]))
+        it.ctx.assume(z3.Length(r) >= 1)
+        return VList(seq=r)
     if name == 'join':
         arg = args[0]
         items = concrete_items(it, arg)
@@ -880,8 +901,20 @@ def list_extend(it, l, other):
     if items is not None and not l.symbolic:
         l.items.extend(items)
         return
+    if isinstance(other, VKeys):
+        _unsupported('extend by key view')
+    oel = getattr(other, 'elem', 'any') if isinstance(other, VSeqIter) or (isinstance(other, VList) and other.symbolic) else 'any'
+    if l.symbolic and l.elem == 'str' and oel == 'str':
+        l.seq = z3.Concat(l.seq, other.seq)
+        return
+    if not l.symbolic and not l.items and oel == 'str':
+        l.items = None
+        l.seq, l.elem = other.seq, 'str'
+        return
+    if l.symbolic and l.elem != 'any':
+        l.seq, l.elem = l.to_seq(), 'any'
     l.make_symbolic()
-    l.seq = z3.Concat(l.seq, it.seq_term(other) if not isinstance(other, VKeys) else _unsupported('extend by key view'))
+    l.seq = z3.Concat(l.seq, it.seq_term(other))
 
 
 def _unsupported(msg):
@@ -895,7 +928,11 @@ def list_method(it, l, name, args, kwargs, line=None):
         if not l.symbolic:
             l.items.append(args[0])
         else:
-            l.seq = z3.Concat(l.seq, z3.Unit(lift(args[0])))
+            et = pv.elem_term(l, args[0])
+            if et is None:
+                l.seq, l.elem = l.to_seq(), 'any'
+                et = lift(args[0])
+            l.seq = z3.Concat(l.seq, z3.Unit(et))
         return None
     if name == 'extend':
         list_extend(it, l, args[0])
@@ -911,11 +948,11 @@ def list_method(it, l, name, args, kwargs, line=None):
         if not ctx.branch(n > 0, 'pop@%s' % line):
             it.raise_py('IndexError', 'pop from empty list', line)
         if idx == 0:
-            v = lower(l.seq[0])
+            v = pv.elem_value(l, l.seq[0])
             l.seq = z3.SubSeq(l.seq, 1, n - 1)
             return v
         if idx == -1:
-            v = lower(l.seq[n - 1])
+            v = pv.elem_value(l, l.seq[n - 1])
             l.seq = z3.SubSeq(l.seq, 0, n - 1)
             return v
         raise Unsupported('list.pop(%r) on a symbolic list' % (idx,))
@@ -942,7 +979,7 @@ def list_method(it, l, name, args, kwargs, line=None):
             it.raise_py('ValueError', 'list.remove(x): x not in list', line)
         raise Unsupported('list.remove on a symbolic list')
     if name == 'copy':
-        return VList(list(l.items)) if not l.symbolic else VList(seq=l.seq)
+        return VList(list(l.items)) if not l.symbolic else VList(seq=l.seq, elem=l.elem)
     if name == 'index':
         if not l.symbolic:
             for i, x in enumerate(l.items):
@@ -1152,16 +1189,25 @@ def mapped_sequence(it, e, env, kind, coll):
     if kind not in ('list', 'gen') or len(e.generators) != 1 or e.generators[0].ifs:
         raise Unsupported('comprehension over a symbolic collection (only unfiltered maps are supported)')
     ctx = it.ctx
-    seq = it.seq_term(coll, getattr(e, 'lineno', None))
-    r = ctx.fresh(PVSeq, 'map')
+    typed = isinstance(coll, VSeqIter) or (isinstance(coll, VList) and coll.symbolic)
+    seq = coll.seq if typed else it.seq_term(coll, getattr(e, 'lineno', None))
     i = ctx.fresh(z3.IntSort(), 'mi')
     cenv = Env(parent=env)
-    it.assign(e.generators[0].target, lower(seq[i]), cenv)
+    it.assign(e.generators[0].target, pv.elem_value(coll, seq[i]) if typed else lower(seq[i]), cenv)
     ctx.spec_depth += 1
     try:
         elt = it.eval(e.elt, cenv)
     finally:
         ctx.spec_depth -= 1
+    if isinstance(elt, (str, SStr)):
+        # a list of strings stays typed; the identity map is the sequence itself
+        if isinstance(elt, SStr) and z3.eq(z3.simplify(elt.t), z3.simplify(seq[i])) and typed and coll.elem == 'str':
+            return VList(seq=seq, elem='str')
+        r = ctx.fresh(z3.SeqSort(z3.StringSort()), 'map')
+        ctx.assume(z3.Length(r) == z3.Length(seq))
+        ctx.assume(z3.ForAll([i], z3.Implies(z3.And(i >= 0, i < z3.Length(seq)), r[i] == as_term_str(elt))))
+        return VList(seq=r, elem='str')
+    r = ctx.fresh(PVSeq, 'map')
     ctx.note('comprehension over a sequence of symbolic length encoded as a mapped sequence (element '
              'expression evaluated as a total function; a raising element expression is not modelled)')
     ctx.assume(z3.Length(r) == z3.Length(seq))
@@ -1309,6 +1355,8 @@ def b_tuple(it, args, kwargs):
         return VKeys(v.arr)
     if isinstance(v, VKeys):
         return v
+    if isinstance(v, VSeqIter) or (isinstance(v, VList) and v.symbolic):
+        return VSeqIter(v.seq, elem=v.elem)
     return VSeqIter(it.seq_term(v))
 
 
@@ -1323,6 +1371,8 @@ def b_list(it, args, kwargs):
         return VKeys(v.arr)
     if isinstance(v, VKeys):
         return v
+    if isinstance(v, VSeqIter) or (isinstance(v, VList) and v.symbolic):
+        return VList(seq=v.seq, elem=v.elem)
     return VList(seq=it.seq_term(v))
 
 
@@ -1602,28 +1652,31 @@ def _quant(it, e, env, universal):
                 return universal
             return mkbool(z3.And(*terms) if universal else z3.Or(*terms))
         if isinstance(coll, (VKeys, VDict)):
-            k = ctx.fresh(PV, names[0])
+            # keys of symbolically indexed dicts are strings: quantify over the index itself
+            k = ctx.fresh(z3.StringSort(), names[0])
             consts.append(k)
-            arr = coll.arr
-            guard.append(arr[pv.kenc_t(k)] != pv.PAbsent)
-            cenv.set(names[0], SAny(k))
+            arr = coll.to_arr() if isinstance(coll, VDict) else coll.arr
+            guard.append(arr[k] != pv.PAbsent)
+            cenv.set(names[0], SStr(k))
             if len(names) == 2:
-                cenv.set(names[1], SAny(arr[pv.kenc_t(k)]))
+                cenv.set(names[1], SAny(arr[k]))
         elif isinstance(coll, VSet):
-            k = ctx.fresh(PV, names[0])
+            k = ctx.fresh(z3.StringSort(), names[0])
             consts.append(k)
-            guard.append(coll.to_arr()[pv.kenc_t(k)])
-            cenv.set(names[0], SAny(k))
+            guard.append(coll.to_arr()[k])
+            cenv.set(names[0], SStr(k))
         else:
-            seq = it.seq_term(coll)
+            typed = isinstance(coll, VSeqIter) or (isinstance(coll, VList) and coll.symbolic)
+            seq = coll.seq if typed else it.seq_term(coll)
             i = ctx.fresh(z3.IntSort(), 'qi')
             consts.append(i)
             guard.append(z3.And(i >= 0, i < z3.Length(seq)))
+            ev = pv.elem_value(coll, seq[i]) if typed else SAny(seq[i])
             if len(names) == 2:     # (index, element)
                 cenv.set(names[0], SInt(i))
-                cenv.set(names[1], SAny(seq[i]))
+                cenv.set(names[1], ev)
             else:
-                cenv.set(names[0], SAny(seq[i]))
+                cenv.set(names[0], ev)
     else:
         for n in names:
             # naming convention: i*, j*, n* -> Int;  s_* -> Str; otherwise untyped
@@ -1749,7 +1802,44 @@ def sp_fld(it, args, kwargs):
     return it.getattr(args[0], args[1], default=SAny(pv.PAbsent))
 
 
+def sp_is_tuple(it, args, kwargs):
+    return isinstance_one(it, args[0], TYPE_MARKERS['tuple'])
+
+
+def sp_is_list(it, args, kwargs):
+    return isinstance_one(it, args[0], TYPE_MARKERS['list'])
+
+
+def sp_is_dict(it, args, kwargs):
+    return isinstance_one(it, args[0], TYPE_MARKERS['dict'])
+
+
+def sp_is_obj(it, args, kwargs):
+    v = args[0]
+    if isinstance(v, VObj):
+        return True if len(args) == 1 else it.obj_isa(v, args[1])
+    if isinstance(v, SAny):
+        if len(args) == 1:
+            return mkbool(PV.is_PObj(v.t))
+        return sp_is_exc(it, args, kwargs)
+    return False
+
+
+def sp_has(it, args, kwargs):
+    return b_hasattr(it, args, kwargs)
+
+
+def sp_strval(it, args, kwargs):
+    """the str value of an instance of a str subclass (MibStatus)"""
+    v = args[0]
+    if isinstance(v, VObj):
+        return v.strval
+    return lower(PV.sval(lift(v)))
+
+
 SPEC_FUNCS = {
+    'is_tuple': sp_is_tuple, 'is_list': sp_is_list, 'is_dict': sp_is_dict, 'is_obj': sp_is_obj, 'has': sp_has,
+    'strval': sp_strval,
     'is_exc': sp_is_exc, 'truthy': sp_truthy, 'is_none': sp_is_none, 'is_str': sp_is_str, 'is_int': sp_is_int,
     'absent': sp_absent, 'matches': sp_matches, 'py_int': sp_py_int, 'py_int_base': sp_py_int_base,
     'py_replace': sp_replace, 'seq': sp_seq, 'concat': sp_concat, 'same': sp_same, 'fld': sp_fld,
